@@ -76,6 +76,20 @@ CLAIMED.update({
              "Coq theorem; one concrete nesting is proved equal by vm_compute (C05_nonvacuous).",
         technique="Coq proof (characterisation of the GraphNode executor, reuse of C06/C01) + metamorphic oracle flat vs nested",
     ),
+    "C09": dict(
+        category="proof",
+        text="Theorems: (i) every call through a valid cache returns what the executor returns and keeps the cache valid; sub-caches of a "
+             "valid cache are valid (eviction); a retained entry is a hit without invocation; (ii) the cache key determines the definition, "
+             "the output names and the arguments by ORIGINAL parameter (the pre-fix key is refuted in Legacy.v); (iii) every reachable "
+             "InMemoryCache has unique keys, at most max_size entries, and hits return the latest set (LRU refinement of a partial map); "
+             "(iv) for every sequence of complete sets, sets torn between the two writes, and every corruption class, a DiskCache hit returns a "
+             "value stored by a complete set of that key and only such bytes reach the deserialiser. Tied to /repo by LRU/Disk differential "
+             "runs on a real directory with a pickle.loads spy and by cached-vs-uncached program runs over shared backends.",
+        design_ref="DESIGN.md section 5 C09",
+        note="SHA-256 / HMAC are idealised as injective tagging, and forged signatures are excluded (op_ok) — Section hypotheses, not "
+             "axioms; diskcache/SQLite single-write atomicity and 'no exception' are runtime behaviour, covered by the fault enumeration.",
+        technique="Coq proof (invariants over LRU / disk operation histories; per-call cache refinement) + fault enumeration on real backends",
+    ),
     "C10": dict(
         category="proof",
         text="Theorems: zip enumerates position-wise combinations and rejects unequal lengths; product enumerates the cartesian product in "
